@@ -488,6 +488,11 @@ impl Searcher {
         self.repetition.len()
     }
 
+    /// XOR of all hashes on the repetition stack (order-free fingerprint of the recorded history).
+    pub fn verif_repetition_xor(&self) -> u64 {
+        self.repetition.verif_xor()
+    }
+
     pub fn verif_is_repetition_draw(&self, board: &Board) -> bool {
         self.is_draw_by_repetition(board)
     }
